@@ -382,14 +382,18 @@ class Mitochondria:
 
         except Exception as e:
             self._ros_accumulated += 0.1
+            try:
+                message = str(e)
+            except Exception:
+                message = "<exception message unavailable>"  # a tool raised an exception whose __str__ fails
             error_context = {
                 "expression": expression[:100] + "..." if len(expression) > 100 else expression,
                 "error_type": type(e).__name__,
-                "error_message": str(e),
+                "error_message": message,
             }
             return MetabolicResult(
                 success=False,
-                error=f"Metabolic failure in {pathway.value if pathway else 'auto'}: {type(e).__name__}: {e}",
+                error=f"Metabolic failure in {pathway.value if pathway else 'auto'}: {type(e).__name__}: {message}",
                 pathway=pathway or MetabolicPathway.GLYCOLYSIS,
                 ros_level=self._ros_accumulated
             )
